@@ -96,15 +96,45 @@ def gen_case(rng, sysn, tb):
     return {"universe": uni, "root": root}, rs
 
 
+class CodeDied(Exception):
+    """The harness process was killed by a Go runtime fatal error raised inside the code under test (not recoverable in-process)."""
+    def __init__(self, fatal, top, excerpt):
+        Exception.__init__(self, fatal)
+        self.fatal, self.top, self.excerpt = fatal, top, excerpt
+
+
 def run_session(binpath, args, wdir, race):
     env = vlib.env_with({"GORACE": "halt_on_error=0 exitcode=0"} if race else None)
     p = subprocess.run([binpath] + args, cwd=wdir, env=env, timeout=3000, stdout=subprocess.PIPE, stderr=subprocess.PIPE, text=True)
     if p.returncode != 0:
+        err = p.stderr
+        if "fatal error:" in err:
+            tail = err[err.index("fatal error:"):]
+            fatal = tail.split("\n")[0]
+            frames = [l.split("(")[0].strip() for l in tail.split("\n")[1:12] if l.startswith(("deps.dev/", "main."))]
+            # the runtime names the goroutine that tripped the check first: the death belongs to the code under test when
+            # its innermost frame is library code (concurrent map access, unrecoverable stack overflow ...)
+            if frames and frames[0].startswith("deps.dev/util/"):
+                raise CodeDied(fatal, frames[0], tail[:3000])
         raise vlib.Trouble("session harness exited %s\n%s" % (p.returncode, p.stderr[-4000:]))
     return p.stderr
 
 
 def run(ctx):
+    try:
+        return run_checked(ctx)
+    except CodeDied as e:
+        # a resolver that kills the process under concurrent use contradicts "no matter how many resolutions run concurrently"
+        verdict = vlib.Verdict("C05")
+        verdict.fail("resolver-killed-the-process-under-concurrent-use|%s|%s" % (e.fatal, e.top), {"law": "process-died", "fatal": e.fatal, "innermost_frame": e.top, "stderr": e.excerpt})
+        rc = verdict.finish(vlib.workdir("C05", "died"))
+        vlib.write_evidence("C05", ctx.tier, ctx.seed, "model_checking", {"states": 0, "transitions": 0, "traces_validated_against_impl": 0, "evaluations": 1, "distinct_nontrivial": 1,
+                            "rule": "the session harness was killed by a Go runtime fatal error inside the resolver", "samples": [{"fatal": e.fatal, "frame": e.top}], "exhaustive": False},
+                            0.0, violations=len(verdict.violations), assumptions=["TLC 1.8.0"])
+        return rc
+
+
+def run_checked(ctx):
     pid = "C05"
     t0 = time.time()
     wdir = vlib.workdir(pid, "replay" if ctx.replay else None)
